@@ -201,6 +201,8 @@ type rawServer struct {
 	requests   int
 	authorized int
 	reqLines   []string
+	// ok200, when set, produces the complete answer to an authorized request (first = request line)
+	ok200 func(first string) []byte
 }
 
 func (s *rawServer) port() int { return s.ln.Addr().(*net.TCPAddr).Port }
@@ -250,7 +252,7 @@ func (s *rawServer) serve(c net.Conn) {
 			if len(f) == 2 && strings.EqualFold(f[0], "basic") {
 				if dec, err := base64.StdEncoding.DecodeString(f[1]); err == nil {
 					for _, pw := range []string{":verifpass", ":p1", ":p2"} {
-						if strings.HasSuffix(string(dec), pw) {
+						if strings.Contains(string(dec), pw) { // Contains: a CRLF-speaking helper leaves a CR behind the password
 							hasAuth = true
 						}
 					}
@@ -289,6 +291,8 @@ func (s *rawServer) serve(c net.Conn) {
 		c.Write([]byte("HTTP/1.1 401 Unauthorized\r\n"))
 		c.Write(s.block)
 		fmt.Fprintf(c, "%sContent-Length: %d\r\nConnection: close\r\n\r\n%s", ct, len(body), body)
+	case s.ok200 != nil:
+		c.Write(s.ok200(first))
 	default:
 		body := `{"locks":[]}`
 		fmt.Fprintf(c, "HTTP/1.1 200 OK\r\n%sContent-Length: %d\r\nConnection: close\r\n\r\n%s", ct, len(body), body)
